@@ -105,6 +105,17 @@ static int typed_##NAME(int w, int form, int coll, int nb, int varid, const MPI_
 TYPED(text, char) TYPED(schar, signed char) TYPED(uchar, unsigned char) TYPED(short, short) TYPED(ushort, unsigned short)
 TYPED(int, int) TYPED(uint, unsigned int) TYPED(long, long) TYPED(float, float) TYPED(double, double)
 TYPED(longlong, long long) TYPED(ulonglong, unsigned long long)
+#define ATT(NAME, CT) \
+static int att_put_##NAME(int v, const char *nm, nc_type xt, MPI_Offset n, const void *b) { return ncmpi_put_att_##NAME(ncid,v,nm,xt,n,(const CT*)b); } \
+static int att_get_##NAME(int v, const char *nm, void *b) { return ncmpi_get_att_##NAME(ncid,v,nm,(CT*)b); }
+ATT(schar, signed char) ATT(uchar, unsigned char) ATT(short, short) ATT(ushort, unsigned short) ATT(int, int) ATT(uint, unsigned int)
+ATT(long, long) ATT(float, float) ATT(double, double) ATT(longlong, long long) ATT(ulonglong, unsigned long long)
+static int att_put_text(int v, const char *nm, nc_type xt, MPI_Offset n, const void *b) { (void)xt; return ncmpi_put_att_text(ncid,v,nm,n,(const char*)b); }
+static int att_get_text(int v, const char *nm, void *b) { return ncmpi_get_att_text(ncid,v,nm,(char*)b); }
+typedef int (*attput_fn)(int,const char*,nc_type,MPI_Offset,const void*);
+typedef int (*attget_fn)(int,const char*,void*);
+static attput_fn attput_tab[] = {att_put_text,att_put_schar,att_put_uchar,att_put_short,att_put_ushort,att_put_int,att_put_uint,att_put_long,att_put_float,att_put_double,att_put_longlong,att_put_ulonglong};
+static attget_fn attget_tab[] = {att_get_text,att_get_schar,att_get_uchar,att_get_short,att_get_ushort,att_get_int,att_get_uint,att_get_long,att_get_float,att_get_double,att_get_longlong,att_get_ulonglong};
 typedef int (*typed_fn)(int,int,int,int,int,const MPI_Offset*,const MPI_Offset*,const MPI_Offset*,const MPI_Offset*,void*,int*);
 static typed_fn typed_tab[] = {typed_text,typed_schar,typed_uchar,typed_short,typed_ushort,typed_int,typed_uint,typed_long,typed_float,typed_double,typed_longlong,typed_ulonglong};
 
@@ -220,6 +231,15 @@ int main(int argc, char **argv) {
         } else if (!strcmp(op,"get_att")) { int v=varid_of(A(1)); nc_type xt; MPI_Offset n=0; err=ncmpi_inq_att(ncid,v,A(2),&xt,&n);
             if (err) fprintf(out," %d",err); else if (xt==NC_CHAR) { char *b=malloc(n+1); err=ncmpi_get_att_text(ncid,v,A(2),b); fprintf(out," %d %d %lld ",err,(int)xt,(long long)n); hexout((unsigned char*)b,n); free(b);}
             else { double *b=malloc(sizeof(double)*(n+1)); err=ncmpi_get_att_double(ncid,v,A(2),b); fprintf(out," %d %d %lld",err,(int)xt,(long long)n); for(MPI_Offset k=0;k<n;k++) print_elem(b,T_DOUBLE,k); free(b);}
+        } else if (!strcmp(op,"put_attm")) { /* put_attm var name xtype memtype n vals.. : typed API, conversion memtype -> xtype */
+            int v=varid_of(A(1)); int xt=parse_xt(A(3)); int mt=parse_mt(A(4)); int n=atoi(A(5));
+            unsigned char *b=calloc((size_t)n+1,8); for(int k=0;k<n;k++) set_elem(b,(mtype_t)mt,k,parse_val(A(6+k)));
+            err=attput_tab[mt](v,A(2),xt,n,b); free(b); fprintf(out," %d",err);
+        } else if (!strcmp(op,"get_attm")) { /* get_attm var name memtype : typed API, conversion xtype -> memtype */
+            int v=varid_of(A(1)); int mt=parse_mt(A(3)); nc_type xt; MPI_Offset n=0; err=ncmpi_inq_att(ncid,v,A(2),&xt,&n);
+            if (err) fprintf(out," %d",err);
+            else { unsigned char *b=calloc((size_t)n+1,8); err=attget_tab[mt](v,A(2),b); fprintf(out," %d %d %lld",err,(int)xt,(long long)n);
+                   if (err==NC_NOERR||err==NC_ERANGE) for(MPI_Offset k=0;k<n;k++) print_elem(b,(mtype_t)mt,k); free(b); }
         } else if (!strcmp(op,"del_att")) { err=ncmpi_del_att(ncid,varid_of(A(1)),A(2)); fprintf(out," %d",err);
         } else if (!strcmp(op,"rename_att")) { err=ncmpi_rename_att(ncid,varid_of(A(1)),A(2),A(3)); fprintf(out," %d",err);
         } else if (!strcmp(op,"copy_att")) { err=ncmpi_copy_att(ncid,varid_of(A(1)),A(2),ncid,varid_of(A(3))); fprintf(out," %d",err);
